@@ -502,6 +502,7 @@ class InterpAkima(InterpAlgorithm):
         # Propagate derivatives from sub table.
         if subtable is not None and (self._compute_d_dx or self._compute_d_dvalues):
             cd_term = 0
+            cd_term_dv = 0
 
             if self._compute_d_dx:
                 dm3 = (dval4 - dval3) / (grid[idx + 1] - grid[idx])
